@@ -247,19 +247,37 @@ def _role_param(kind, i):
     return ('n%d' % i, 0)
 
 
-def roles(ckind: int, n: int, k0: int, k1: int, k2: int, k3: int):
-    """A callable with n parameters of kinds ROLE_KINDS[k_i], no annotations."""
+PTR_SPELLINGS = ('gpointer', 'void*', 'gconstpointer')
+
+
+def roles(ckind: int, n: int, k0: int, k1: int, k2: int, k3: int, ptr: int = 0):
+    """A callable with n parameters of kinds ROLE_KINDS[k_i], no annotations.  ptr: C spelling used
+    for the untyped pointers (gpointer, void*, gconstpointer): the roles must not depend on it."""
     ckind = sym.pick(ckind, 0, 3)
+    ptr = sym.pick(ptr, 0, 2)
     n = sym.pick(n, 0, 4)
     k0 = sym.pick(k0, 0, 7)
     k1 = sym.pick(k1, 0, 7)
     k2 = sym.pick(k2, 0, 7)
     k3 = sym.pick(k3, 0, 7)
     with sym.untraced():
-        return _roles(ckind, n, k0, k1, k2, k3)
+        r = _roles(ckind, n, k0, k1, k2, k3, ptr)
+        if r is not True or ptr == 0:
+            return r
+        # same roles as with the gpointer spelling
+        a, b = _roles_view(ckind, n, k0, k1, k2, k3, 0), _roles_view(ckind, n, k0, k1, k2, k3, ptr)
+        if a != b:
+            return 'roles differ between gpointer and %s: %r vs %r' % (PTR_SPELLINGS[ptr], a, b)
+        return True
 
 
-def _roles(ckind, n, k0, k1, k2, k3):
+def _roles_view(ckind, n, k0, k1, k2, k3, ptr):
+    """(name, closure, destroy, scope, nullable) of every emitted parameter"""
+    c = _roles(ckind, n, k0, k1, k2, k3, ptr, want_view=True)
+    return c
+
+
+def _roles(ckind, n, k0, k1, k2, k3, ptr=0, want_view=False):
     kinds = [ROLE_KINDS[k] for k in (k0, k1, k2, k3)[:n]]
     params = []
     names = []
@@ -271,6 +289,8 @@ def _roles(ckind, n, k0, k1, k2, k3):
         names.append(nm)
         params.append((nm, tk))
     decls, blocks, dump, loc = build_callable(ckind, params, None, {})
+    if ptr:
+        _respell_pointers(decls, ptr)
     o = run_pipeline(decls, [b for b in blocks if b.name == 'FooSkipped'], dump)
     if o.root is None:
         return 'pipeline stopped: %r %r' % (o.fatal, o.crashed)
@@ -280,6 +300,8 @@ def _roles(ckind, n, k0, k1, k2, k3):
     c = cs[0]
     pel = _first(c, 'parameters')
     emitted = [p for p in (pel.children if pel is not None else []) if p.tag == 'parameter']
+    if want_view:
+        return [(p.get('name'), p.get('closure'), p.get('destroy'), p.get('scope'), p.get('nullable')) for p in emitted]
     # ---- trailing GError** ------------------------------------------------------------
     trailing_err = bool(kinds) and kinds[-1] == 'gerror'
     want_n = n - 1 if trailing_err else n
@@ -343,6 +365,69 @@ def _roles(ckind, n, k0, k1, k2, k3):
             if k != 'async' and p.get('destroy') is not None:
                 return 'non-callback parameter %s has destroy %r' % (names[i], p.get('destroy'))
     return True
+
+
+def _respell_pointers(decls, ptr):
+    """Rewrite the `gpointer` parameters of the subject callable as `void*` / `gconstpointer`."""
+    def fix(ct):
+        if ct is None:
+            return
+        if ct.type == ss.CTYPE_FUNCTION:
+            for ch in ct.child_list:
+                if getattr(ch, 'base_type', None) is not None and ch.base_type.type == ss.CTYPE_TYPEDEF \
+                        and ch.base_type.name == 'gpointer' and ch.ident not in ('user_data',) or \
+                        (getattr(ch, 'base_type', None) is not None and ch.base_type.type == ss.CTYPE_TYPEDEF
+                         and ch.base_type.name == 'gpointer'):
+                    ch.base_type = t_ptr(t_void()) if ptr == 1 else t_typedef('gconstpointer')
+                else:
+                    fix(getattr(ch, 'base_type', None))
+        elif ct.type in (ss.CTYPE_POINTER,):
+            fix(ct.base_type)
+        elif ct.type == ss.CTYPE_STRUCT:
+            for ch in ct.child_list:
+                fix(getattr(ch, 'base_type', None))
+    d = decls[-1]
+    # the subject is the last declaration for functions/methods/callbacks; for virtual methods it is
+    # the slot inside struct _FooObjClass
+    for d in decls:
+        if d.ident in ('foo_frob', 'foo_rec_frob', 'FooFrobCb', '_FooObjClass'):
+            fix(d.base_type)
+
+
+# ------------------------------------------------------------------------------
+# typedef'd return types: the default transfer looks through the alias
+
+def typedef_return(sidx: int, depth: int, qbase: int):
+    """typedef <quals> T <'*' x depth> FooMy;  FooMy foo_frob (void);"""
+    sidx = sym.pick(sidx, 0, N_SPELL - 1)
+    depth = sym.pick(depth, 0, 1)
+    qbase = sym.pick(qbase, 0, 1)
+    with sym.untraced():
+        from vlib.gistub import s_typedef
+        sp = SPELLINGS[sidx]
+        ct = _base_ctype(sp, _Q[qbase])
+        for i in range(depth):
+            ct = t_ptr(ct)
+        decls = pipe.fixed_decls() + [s_typedef('FooMy', ct), s_function('foo_frob', t_typedef('FooMy'), [])]
+        o = run_pipeline(decls, [], pipe.fixed_dump())
+        if o.root is None:
+            return 'pipeline stopped: %r %r' % (o.fatal, o.crashed)
+        fs = find_callable(o.root, ('function', 'foo_frob'))
+        if len(fs) != 1:
+            return 'function not emitted once'
+        v = _first(fs[0], 'return-value')
+        tr = v.get('transfer-ownership')
+        base = BASIC[sp]
+        const_pointee = bool(_Q[qbase] & CONST)
+        if depth == 0 and base not in ('gpointer', 'va_list'):
+            if tr != 'none':
+                return 'returned typedef of basic %s: transfer %r' % (sp, tr)
+        elif depth == 1 and sp in STRINGS:
+            if const_pointee and tr != 'none':
+                return 'returned typedef of const %s*: transfer %r' % (sp, tr)
+            if not const_pointee and tr != 'full':
+                return 'returned typedef of %s*: transfer %r' % (sp, tr)
+        return True
 
 
 # ------------------------------------------------------------------------------
